@@ -352,8 +352,14 @@ impl<const N: usize> PublicKey<N> {
                     }
                     int
                 })
-                .map(Felt::new)
-                .collect_vec(),
+                .map(|int| {
+                    if (int as u32) < Q {
+                        Ok(Felt::new(int))
+                    } else {
+                        Err(FalconDeserializationError::BadFieldElementEncoding)
+                    }
+                })
+                .collect::<Result<Vec<Felt>, _>>()?,
         );
 
         Ok(PublicKey { h })
